@@ -22,13 +22,25 @@ import (
 
 const DriverName = "simsqlite3"
 
-func init() { sql.Register(DriverName, &drv{inner: &sqlite3.SQLiteDriver{}}) }
+func init() {
+	sql.Register(DriverName, &drv{inner: &sqlite3.SQLiteDriver{
+		ConnectHook: func(c *sqlite3.SQLiteConn) error {
+			// ksim_now() = CURRENT_TIMESTAMP on the simulator's clock
+			return c.RegisterFunc("ksim_now", func() string {
+				return time.Now().UTC().Format("2006-01-02 15:04:05")
+			}, false)
+		},
+	}})
+}
 
+// rewrite replaces CURRENT_TIMESTAMP by a call of ksim_now(), also inside
+// column defaults (DEFAULT (ksim_now()) is evaluated at insert time, as
+// DEFAULT CURRENT_TIMESTAMP is).
 func rewrite(q string) string {
 	if !strings.Contains(q, "CURRENT_TIMESTAMP") {
 		return q
 	}
-	return strings.ReplaceAll(q, "CURRENT_TIMESTAMP", "'"+time.Now().UTC().Format("2006-01-02 15:04:05")+"'")
+	return strings.ReplaceAll(q, "CURRENT_TIMESTAMP", "(ksim_now())")
 }
 
 type drv struct{ inner driver.Driver }
